@@ -121,8 +121,11 @@ def judgeC18 (j : Json) : R Verdict := do
     if (← nat (← field obs "cross_process_distinct")) != 1 then spec := spec ++ ["cross-process"]
     if !(← bool (← field obs "cross_matches_in_process")) then spec := spec ++ ["cross-process-vs-in-process"]
   if (← nat (← field obs "tii_distinct")) > 1 then spec := spec ++ ["tii-file"]
+  -- the same command line with profiles and env files, in fresh processes
+  if (← nat (← field obs "tii_profile_distinct")) > 1 then spec := spec ++ ["tii-file-with-profiles"]
   let tags := [gen] ++ (if cr > 0 then ["cross-process"] else []) ++
     (if (← nat (← field obs "tii_runs")) > 0 then ["tii"] else []) ++
+    (if (← nat (← field obs "tii_profile_runs")) > 0 then ["tii-with-profiles"] else []) ++
     (if !(isNull (fieldD obs "tii_error")) then ["tii-error"] else [])
   return { i, corr, spec, key := fnv origin, tags, nt := true }
 
